@@ -76,7 +76,12 @@ class ShapeBuilder(object):
         self.idents[t] = path
         return s
 
+    overrides = {}         # path -> node class: positions generated as a real node of that class (demand-driven refinement)
+
     def opaque(self, sort, path):
+        k = self.overrides.get(path)
+        if k is not None and G.SORT_OF.get(k) == sort:
+            return self.node(k, path)
         return SymNode(None, path, sort)
 
     def ctx(self, kind, path):
@@ -128,6 +133,8 @@ class ShapeBuilder(object):
     def lens(self, cls, fld):
         lo = MIN_LEN.get((cls, fld.name), MIN_LEN.get(('*', fld.name), 0))
         vals = [2, 1, 0]
+        if (cls, fld.name) == ('BoolOp', 'values'):
+            vals = [3, 2]          # a chain: what a middle operand binds is seen by the later ones
         return [v for v in vals if v >= lo]
 
     def field(self, cls, fld, p):
@@ -204,6 +211,9 @@ class ShapeBuilder(object):
             return None
         if mult == '*':
             return [SymNode(None, '%s[0]' % p, sort)] if sort in ('cmpop',) else []
+        if sort == 'boolop':
+            # `and` / `or`: the two short-circuit differently
+            return SymNode(self.pick(key + ('op',), ['And', 'Or']), p, sort, {})
         return SymNode(None, p, sort)
 
     def fix_arguments(self, n, path):
@@ -360,6 +370,8 @@ class Extractor(object):
         it.attr_hooks['extract_visitor'] = self.h_visitor_attr
         it.attr_hooks['Scope'] = self.h_scope_attr
         it.membership_policy = 'single'
+        it.opaque_policy = 'none'
+        it.ident_policy = 'fork'
 
     def _validate_frozen_summaries(self):
         """The helpers summarised natively must still have the shape the summary assumes."""
@@ -714,6 +726,23 @@ def all_summaries(repo, tier='quick'):
             if cls in G.OUT_OF_DOMAIN_NODES:
                 continue
             out[cls] = [ex.summarise(cls, v, root, b) for v, root, b in shapes_for(cls, getattr(repo, 'tier', tier))]
+            # demand-driven refinement: where the code asked whether an arbitrary child is a node of class K, the largest shape is
+            # generated again with a real K node at that position (its own children arbitrary)
+            asked = {}
+            for sm in out[cls]:
+                for ps in sm.paths:
+                    for e in ps.effects:
+                        if e[0] == 'asked-class':
+                            for k in e[2]:
+                                asked.setdefault((e[1], k), sm)      # the first shape in which the question came up
+            for (path, k), sm in sorted(asked.items(), key=lambda x: x[0])[:12]:
+                ShapeBuilder.overrides = {path: k}
+                try:
+                    b = ShapeBuilder(dict(sm.builder.choices), sm.builder.profile)
+                    root = b.node(cls, 'node')
+                finally:
+                    ShapeBuilder.overrides = {}
+                out[cls].append(ex.summarise(cls, '%s & %s is a %s' % (sm.variant, path, k), root, b))
         # match statements are outside the domain of the name-resolution properties, but not of C08 / C11 / C17: once the
         # extractor has visit methods for them, they are summarised like every other construct
         pat = sorted(n for n, srt in G.SORT_OF.items() if srt == 'pattern' and n in G.NODE_FIELDS)
